@@ -101,6 +101,35 @@ fn main() {
             replay: Box::new(|c| replay(&h_objects::all_traits(), c)),
         });
     }
+    if prop == "C13" {
+        sections.push(Section {
+            name: "int_result_signatures",
+            explore: Box::new(|cx: &Cx| {
+                cx.rule("int_result_signatures", "for every trait of the grammar tier with a method marked to use integer results (method-level, trait-level, with a result alias, both levels in one trait): the C signature of that vtable entry, as the compiler names it, returns the i32 code (and the entry sits in its declaration slot)");
+                for (idx, desc, f) in h_objects::all_raw_checks() {
+                    if !(desc.contains("int_") || desc.contains("int_result")) {
+                        continue;
+                    }
+                    let case = serde_json::json!({"trait": idx, "shape": desc, "raw": true});
+                    cx.eval("int_result_signatures", &case, || match std::panic::catch_unwind(f) {
+                        Err(_) => explore::CaseOut::bad("panic", "panicked"),
+                        Ok(Err((sig, d))) => explore::CaseOut::bad(sig, d),
+                        Ok(Ok(obs)) => explore::CaseOut::ok(obs ^ idx as u64),
+                    });
+                }
+            }),
+            replay: Box::new(|c| {
+                let idx = c["trait"].as_u64().unwrap() as usize;
+                match h_objects::all_raw_checks().into_iter().find(|x| x.0 == idx) {
+                    None => explore::CaseOut::bad("replay:no_such_trait", "not in this tier"),
+                    Some((_, _, f)) => match f() {
+                        Err((sig, d)) => explore::CaseOut::bad(sig, d),
+                        Ok(o) => explore::CaseOut::ok(o),
+                    },
+                }
+            }),
+        });
+    }
     if prop == "C04" {
         sections.push(Section {
             name: "vtable_slots",
